@@ -19,11 +19,11 @@ def universes(tier, seed):
     ks = sorted(U.kernel_small(3))
     kk = [("u", ("k", a), ("k", b)) for a in ks for b in ks if a <= b]
     if tier == "quick":
-        out.append((f"KxK[{seed % 16}/16]", U.shard(kk, seed, 16)))
-        out.append((f"F3c[{seed % 32}/32]", [("idx", 3, i) for i in U.shard(U.F3_indices(True), seed, 32)]))
+        out.append((f"KxK[{seed % 32}/32]", U.shard(kk, seed, 32)))
+        out.append((f"F3c[{seed % 64}/64]", [("idx", 3, i) for i in U.shard(U.F3_indices(True), seed, 64)]))
         out.append((f"MULTI3[{seed % 4}/4]", [("idx", 3, i) for i in U.shard(U.catalogue("multi"), seed, 4)]))
-        out.append((f"MAA3[{seed % 1024}/1024]", [("idx", 3, i) for i in U.shard(U.catalogue("maa"), seed, 1024)]))
-        out.append((f"MAA3[{seed % 8192}/8192]+switch", [("u", ("idx", 3, i), ("k", "bistable")) for i in U.shard(U.catalogue("maa"), seed, 8192)]))
+        out.append((f"MAA3[{seed % 2048}/2048]", [("idx", 3, i) for i in U.shard(U.catalogue("maa"), seed, 2048)]))
+        out.append((f"MAA3[{seed % 16384}/16384]+switch", [("u", ("idx", 3, i), ("k", "bistable")) for i in U.shard(U.catalogue("maa"), seed, 16384)]))
     else:
         out.append(("KxK", kk))
         out.append((f"F3c[{seed % 4}/4]", [("idx", 3, i) for i in U.shard(U.F3_indices(True), seed, 4)]))
@@ -40,7 +40,7 @@ def plan(tier, seed):
         for spec in (specs if name in ("K", "U2") else []):
             sz = len(U.resolve(spec).sd[0])
             if tier == "quick":
-                hist = (2 if sz <= 3 else 1 if sz <= 5 else 0) if name == "K" else (1 if sz >= 2 else 0)
+                hist = (2 if sz <= 3 else 1 if sz <= 5 else 0) if name == "K" else (1 if sz >= 3 else 0)
             else:
                 hist = 2 if sz <= 4 else (1 if sz <= 9 else 0)
             units.append((name, [spec], hist))
@@ -50,7 +50,7 @@ def plan(tier, seed):
     units.sort(key=lambda u: (-u[2], not ("KxK" in u[0] or "switch" in u[0])))
     return {
         "units": units, "universes": {n: len(s) for n, s in us},
-        "bounds": {"partial expansion": "7 partial strategies x every size limit 1..|full diagram|; plus every state reachable by "
+        "bounds": {"partial expansion": "7 partial strategies x every size limit 1..|full diagram| (diagrams with more than 8 nodes: limits 1..6, half, full); plus every state reachable by "
                    "plain-alphabet histories of depth <= 2 (K, small diagrams; 1 or 0 for larger ones) / 1 (U2)",
                    "completion routes": "skip_remaining | skip_to_minimal on every subset of stubs (<=3 stubs; else each single stub "
                    "and all) in id order then skip_remaining | expand_minimal_spaces(skip_ignored=True) then skip_remaining",
@@ -132,8 +132,9 @@ def run_case(net, prefix, route, order_idx):
 def cases(net, hist_depth):
     nfull = len(net.sd[0])
     prefixes = []
+    lims = list(range(1, nfull + 1)) if nfull <= 8 else sorted(set(list(range(1, 7)) + [nfull // 2, nfull]))
     for name in PARTIAL:
-        for lim in range(1, nfull + 1):
+        for lim in lims:
             prefixes.append((partial_op(name, lim),))
     if hist_depth:
         ex = Explorer(net, lambda n, s: plain_ops(n, s, limits="few", targets="nodes"), config=CONFIG)
